@@ -116,6 +116,11 @@ fn mk(k: usize, id: u64, c0: Ty<VI>, c1: Ty<VI>) -> Ty<VI> {
 
 /// `same_id`, `same_c0`, `same_c1`: whether the two sides agree on the id / first / second child.
 fn step(k1: usize, k2: usize, same_id: bool, same_c0: bool, same_c1: bool) {
+    step_core(k1, k2, same_id, same_c0, same_c1);
+    cover!(true);
+}
+
+fn step_core(k1: usize, k2: usize, same_id: bool, same_c0: bool, same_c1: bool) {
     let a0 = sym::u64();
     let a1 = sym::u64();
     // top-level ids are concrete in both classes: an id read back out of `TyKind::Adt` (the widest
@@ -151,7 +156,6 @@ fn step(k1: usize, k2: usize, same_id: bool, same_c0: bool, same_c1: bool) {
         assert!(matches!(r.kind(I), TyKind::InferenceVar(..)));
     }
     std::mem::forget(infer);
-    cover!(true);
 }
 
 /// `&m 'l F` on both sides: mutability / lifetime / pointee agree or not.
@@ -273,6 +277,39 @@ sharness!(c17_q_anti_leaf_boundvar, 8, { leaf_step(4, 4, true) });
 sharness!(c17_t_anti_leaf_foreign_vs_scalar, 8, { leaf_step(0, 1, true) });
 sharness!(c17_t_anti_leaf_str_vs_never, 8, { leaf_step(6, 7, true) });
 sharness!(c17_t_anti_leaf_error, 8, { leaf_step(5, 5, true) });
+
+/// Systematic rows (thorough tier): constructor `k1` against `k2`, ids agreeing or not, all four
+/// agreement patterns of the children.
+fn anti_row(k1: usize, k2: usize, same_id: bool) {
+    let mut m = 0;
+    while m < 4 {
+        arena_reset();
+        step_core(k1, k2, same_id, m & 1 != 0, m & 2 != 0);
+        m += 1;
+    }
+    cover!(true);
+}
+macro_rules! anti_rows {
+    ($($name:ident: $k1:expr, $k2:expr, $id:expr;)*) => {$(
+        sharness!($name, 8, { anti_row($k1, $k2, $id) });
+    )*};
+}
+anti_rows! {
+    c17_t_anti_row_adt_same_id: 0, 0, true;
+    c17_t_anti_row_adt_diff_id: 0, 0, false;
+    c17_t_anti_row_assoc_same_id: 1, 1, true;
+    c17_t_anti_row_tuple: 3, 3, true;
+    c17_t_anti_row_opaque_same_id: 8, 8, true;
+    c17_t_anti_row_fndef_same_id: 9, 9, true;
+    c17_t_anti_row_fndef_diff_id: 9, 9, false;
+    c17_t_anti_row_closure_same_id: 12, 12, true;
+    c17_t_anti_row_slice: 5, 5, true;
+    c17_t_anti_row_raw_mut: 6, 6, true;
+    c17_t_anti_row_raw_const: 7, 7, true;
+    c17_t_anti_row_raw_mixed: 6, 7, true;
+    c17_t_anti_row_adt_vs_tuple: 0, 3, true;
+    c17_t_anti_row_fndef_vs_closure: 9, 12, true;
+}
 
 macro_rules! steps {
     ($($name:ident: $k1:expr, $k2:expr, $i:expr, $a:expr, $b:expr;)*) => {$(
